@@ -1,6 +1,7 @@
 import Sekai.Model.Custody
 import SekaiProofs.Lemmas.Custody
 import Sekai.Gen.App
+import Sekai.Gen.Keys
 import Sekai.Model.App
 /-! # C17 — Custody: guarded funds leave only with the required approvals
 
@@ -839,5 +840,41 @@ theorem relay_ignores_custody_counterexample :
 
 /-- the custody decorator is in the ante chain exactly once -/
 theorem ante_custody_wiring : Sekai.App.once Sekai.Gen.App.anteChain "NewCustodyDecorator" = true := by decide +kernel
+
+/-! ### Key spaces of the custody store (table `Gen.Keys`)
+
+The model keeps settings, custodians, white list, limits, limit statuses, pools and the per-custodian vote markers in
+separate fields. The module keeps them in ONE key-value store, each kind under `prefix ++ address…`. The separation is
+faithful only if a key of one kind can never be read (or deleted) as a key of another kind. -/
+
+/-- neither is a prefix of the other -/
+def apart (p q : List Char) : Bool := !(p.isPrefixOf q) && !(q.isPrefixOf p)
+
+/-- **keys built on prefixes that are apart are different, whatever follows the prefix** -/
+theorem keys_of_apart_prefixes_differ (p q x y : List Char) (h : apart p q = true) : p ++ x ≠ q ++ y := by
+  intro e
+  simp only [apart, Bool.and_eq_true, Bool.not_eq_true'] at h
+  rcases List.append_eq_append_iff.mp e with ⟨a, hq, _⟩ | ⟨c, hp, _⟩
+  · have : p.isPrefixOf q = true := by rw [hq]; exact List.isPrefixOf_iff_prefix.mpr (List.prefix_append p a)
+    simp [this] at h
+  · have : q.isPrefixOf p = true := by rw [hp]; exact List.isPrefixOf_iff_prefix.mpr (List.prefix_append q c)
+    simp [this] at h
+
+/-- every pair of differently named entries of the table is apart, and every entry was recognised -/
+def prefixFree (l : List (String × String)) : Bool :=
+  l.all fun a => !(a.2.startsWith "unrecognised:") && l.all fun b => a.1 == b.1 || apart a.2.toList b.2.toList
+
+/-- **the record kinds of the custody store live in disjoint key spaces** (code as it is now) -/
+theorem key_spaces_disjoint : prefixFree Sekai.Gen.Keys.custody = true := by decide +kernel
+
+/-- the table is the one the model was written against: seven record kinds and the two size counters -/
+theorem key_table_as_modelled : Sekai.Gen.Keys.custody.map (·.1) =
+    ["PrefixKeyCustodyRecord", "PrefixKeyCustodyCustodians", "PrefixKeyCustodyWhiteList", "PrefixKeyCustodyLimits",
+     "PrefixKeyCustodyLimitsStatus", "PrefixKeyCustodyPool", "PrefixKeyCustodyVote", "CustodyBufferSizeKey", "CustodyTxSizeKey"] := by
+  decide +kernel
+
+/-- what the check is for: a vote-marker prefix that extends the settings prefix lets a settings key name a vote marker -/
+example : prefixFree [("A", "custody_record_"), ("B", "custody_record_vote_")] = false ∧
+    "custody_record_".toList ++ "vote_xyz".toList = "custody_record_vote_".toList ++ "xyz".toList := by decide +kernel
 
 end Sekai.Props.C17
